@@ -296,13 +296,26 @@ func (c *ScriptConn) Wait(op *Op) (finished bool) {
 }
 
 func (c *ScriptConn) WaitT(op *Op, limit time.Duration) (finished bool, stuck bool) {
-	timer := time.AfterFunc(limit, func() {
-		c.mu.Lock()
-		c.cond.Broadcast()
-		c.mu.Unlock()
-	})
-	defer timer.Stop()
+	// The deadline is fixed first and a ticker keeps nudging the waiter, so that the wake-up
+	// that ends the wait cannot be lost (a single timer created before the deadline was
+	// computed could fire a moment too early and leave the waiter asleep for ever).
 	deadline := time.Now().Add(limit)
+	stop := make(chan struct{})
+	defer close(stop)
+	go func() {
+		t := time.NewTicker(50 * time.Millisecond)
+		defer t.Stop()
+		for {
+			select {
+			case <-stop:
+				return
+			case <-t.C:
+				c.mu.Lock()
+				c.cond.Broadcast()
+				c.mu.Unlock()
+			}
+		}
+	}()
 	c.mu.Lock()
 	defer c.mu.Unlock()
 	for {
